@@ -24,47 +24,233 @@ theorem good_dict {kvs : List (String × Py)} (h : (Py.dict kvs).good = true) :
   rw [Bool.and_eq_true, Py.wf, Py.jsonX, Bool.and_eq_true] at h
   exact ⟨h.1.2, h.2, keysK_eq kvs ▸ nodup_of_distinctStrs h.1.1⟩
 
-/-! ### no crash of the two general union methods -/
-theorem runUnion_nc : ∀ (ms : List Meth) (d : Py) (err : Option Err),
-    (∀ m ∈ ms, (run m d).isCrash = false) → (ms ≠ [] ∨ err.isSome = true) → (runUnion ms d err).isCrash = false
-  | [], d, err, _, hne => by
-    rw [runUnion]; unfold unionEnd
-    cases err with
-    | none => rcases hne with h | h <;> simp at h
-    | some e => rfl
-  | m :: ms, d, err, h, _ => by
-    rw [runUnion]
-    have hm := h m (List.mem_cons_self ..)
-    unfold unionStep
-    cases hr : run m d with
-    | ok v => rfl
-    | crash c => rw [hr] at hm; cases hm
-    | invalid e => exact runUnion_nc ms d _ (fun m' hm' => h m' (List.mem_cons_of_mem _ hm')) (Or.inr rfl)
+theorem good_wf {d : Py} (h : d.good = true) : d.wf = true := by
+  unfold Py.good at h; rw [Bool.and_eq_true] at h; exact h.1
+theorem good_jsonX {d : Py} (h : d.good = true) : d.jsonX = true := by
+  unfold Py.good at h; rw [Bool.and_eq_true] at h; exact h.2
+theorem good_str (s : String) : (Py.str s).good = true := rfl
 
-theorem nc_union {ms : List Meth} (hne : ms ≠ []) (h : ∀ m ∈ ms, NC m) : NC (.union ms) := by
-  intro d hd; rw [run]
-  exact runUnion_nc ms d Option.none (fun m hm => h m hm d hd) (Or.inl hne)
+/-! ### acceptance over good data -/
+/-- per (method, type): acceptance of the method = conformance to the type, on data with distinct keys and no
+    crash-prone leaf -/
+def AcceptsG (o : DOpts) (cs : Constraints) (m : Meth) (t : Ty) : Prop :=
+  ∀ d, d.good = true → (run m d).isOk = conforms o.additionalProperties false cs t d
 
-theorem nc_byTypeTail {others d r} (hr : r.isCrash = false) : (byTypeTail others d r).isCrash = false := by
-  unfold byTypeTail
-  cases r with
-  | ok v => rfl
-  | crash c => cases hr
-  | invalid e => simp only [badType]; rfl
+abbrev AcceptsGF (o : DOpts) :=
+  All2 (fun (fm : FieldInfo × Meth) (ft : FieldInfo × Ty) => fm.1 = ft.1 ∧ AcceptsG o {} fm.2 ft.2)
 
-theorem runByType_nc : ∀ (rest all : List (JClass × Meth)) (c : JClass) (d : Py),
-    (∀ p ∈ rest, (run p.2 d).isCrash = false) → (runByType rest all c d).isCrash = false
-  | [], all, c, d, _ => by rw [runByType]; rfl
-  | (c', m) :: rest, all, c, d, h => by
-    rw [runByType]
-    split
-    · exact nc_byTypeTail (h (c', m) (List.mem_cons_self ..))
-    · exact runByType_nc rest all c d (fun p hp => h p (List.mem_cons_of_mem _ hp))
+theorem zipOk_of_AcceptsG {o : DOpts} : ∀ (ts : List Ty), (∀ t ∈ ts, AcceptsG o {} (compile o {} t) t) →
+    ∀ xs : List Py, (∀ x ∈ xs, x.good = true) →
+    zipOkM (compileL o {} ts) xs = conformsZip o.additionalProperties false ts xs
+  | [], _, xs, _ => by rw [compileL]; cases xs <;> simp [zipOkM, conformsZip]
+  | t :: ts, h, xs, hx => by
+    rw [compileL]
+    cases xs with
+    | nil => simp [zipOkM, conformsZip]
+    | cons x xs =>
+      simp only [zipOkM, conformsZip, h t (List.mem_cons_self ..) x (hx x (List.mem_cons_self ..)),
+        zipOk_of_AcceptsG ts (fun t' ht' => h t' (List.mem_cons_of_mem _ ht')) xs
+          (fun x' hx' => hx x' (List.mem_cons_of_mem _ hx'))]
 
-theorem nc_unionByType {tbl : List (JClass × Meth)} (h : ∀ p ∈ tbl, NC p.2) : NC (.unionByType tbl) := by
-  intro d hd; rw [run]
-  cases hc : d.jclass? with
-  | none => rfl
-  | some c => exact runByType_nc tbl tbl c d (fun p hp => h p hp d hd)
+theorem fields_of_AcceptsGF {o ms ts} (h : AcceptsGF o ms ts) (hacc : nfF ts = true) :
+    (∀ kvs, wfK kvs = true → jsonXK kvs = true → fieldsOkM ms kvs = conformsF o.additionalProperties false ts kvs)
+    ∧ aliasesM ms = aliasesOf ts ∧ NoFbod ms := by
+  induction h with
+  | nil => exact ⟨fun kvs _ _ => by simp [fieldsOkM, conformsF], by simp [aliasesOf], fun fm h => by cases h⟩
+  | @cons a b l1 l2 hab _ ih =>
+    obtain ⟨f, m⟩ := a; obtain ⟨f', t⟩ := b
+    obtain ⟨hf, hm⟩ := hab
+    simp only at hf hm; subst hf
+    rw [nfF] at hacc
+    simp only [Bool.and_eq_true, Bool.not_eq_true'] at hacc
+    obtain ⟨ih1, ih2, ih3⟩ := ih hacc.2
+    refine ⟨fun kvs hw hj => ?_, by rw [aliasesM_cons, aliasesOf, ih2], ?_⟩
+    · rw [fieldsOkM_cons, conformsF, ih1 kvs hw hj]
+      congr 1
+      unfold fieldOk0 fieldOk
+      cases hl : lookupKey kvs f.alias with
+      | none => rfl
+      | some x =>
+        have hg : x.good = true := by
+          unfold Py.good; rw [lookupKey_wf hw hl, lookupKey_json hj hl]; rfl
+        simp only [hm x hg, hacc.1, Bool.or_false, Bool.and_false]
+    · intro fm hfm
+      rcases List.mem_cons.1 hfm with rfl | hmem
+      · exact hacc.1
+      · exact ih3 fm hmem
+
+/-- acceptance of whichever object method `object()` selects, on good data -/
+theorem isOk_objSelG {o : DOpts} {ci c} {ms : List (FieldInfo × Meth)} {ts : List (FieldInfo × Ty)}
+    (h : AcceptsGF o ms ts) (hacc : nfF ts = true) (hal : (aliasesOf ts).Nodup) (d : Py) (hg : d.good = true) :
+    (run (objSel o ci c ms) d).isOk
+      = dictOk c d (fun kvs => conformsF o.additionalProperties false ts kvs
+                                && noUnexpected o.additionalProperties (aliasesOf ts) kvs) := by
+  obtain ⟨hfields, halias, hnf⟩ := fields_of_AcceptsGF h hacc
+  have ha : (aliasesM ms).Nodup := halias ▸ hal
+  unfold objSel
+  simp only
+  split
+  · rename_i hcond
+    simp only [Bool.and_eq_true, Bool.not_eq_true', beq_iff_eq] at hcond
+    obtain ⟨⟨⟨hc, htd⟩, _⟩, _⟩ := hcond
+    rw [run]
+    cases d <;> simp [onDict, dictOk, isOk_badType]
+    case dict kvs =>
+      obtain ⟨hw, hj, hk⟩ := good_dict hg
+      rw [isOk_finishSimple hnf hk ha, hfields kvs hw hj, halias, dictErrors_nil hc, htd]
+      simp
+  · rw [run]
+    cases d <;> simp [onDict, dictOk, isOk_badType]
+    case dict kvs =>
+      obtain ⟨hw, hj, hk⟩ := good_dict hg
+      rw [isOk_finishObj hnf hk ha, hfields kvs hw hj, halias]
+
+theorem nfF_of_accUF : ∀ {fs : List (FieldInfo × Ty)}, accUF fs = true → nfF fs = true
+  | [], _ => rfl
+  | (f, t) :: fs, h => by
+    rw [accUF] at h; simp only [Bool.and_eq_true, Bool.not_eq_true'] at h
+    simp [nfF, h.1.1, nfF_of_accUF h.2]
+
+theorem accUL_mem : ∀ {ts : List Ty}, accUL ts = true → ∀ t ∈ ts, t.accU = true
+  | t' :: ts, h, t, ht => by
+    rw [accUL, Bool.and_eq_true] at h
+    rcases List.mem_cons.1 ht with rfl | hm
+    · exact h.1
+    · exact accUL_mem h.2 t hm
+theorem nouqL_mem : ∀ {ts : List Ty}, nouqL ts = true → ∀ t ∈ ts, t.nouq = true
+  | t' :: ts, h, t, ht => by
+    rw [nouqL, Bool.and_eq_true] at h
+    rcases List.mem_cons.1 ht with rfl | hm
+    · exact h.1
+    · exact nouqL_mem h.2 t hm
+
+/-- **C01 / C13 (acceptance), version 2.** For every type of `Ty.accU` — unions of any shape (Optional, dispatch by
+    JSON class, sequential) at any depth — without `uniqueItems`, every inherited constraint set, every value of
+    `additional_properties`, `no_copy` and `override_dataclass_constructors`, and every datum with distinct keys and no
+    crash-prone leaf, the compiled method returns a value exactly when the datum conforms: some alternative matches. -/
+theorem acceptsU (o : DOpts) (ho : OptsOk o) :
+    (∀ cs t, t.accU = true → t.nouq = true → cs.unique = false → AcceptsG o cs (compile o cs t) t) ∧
+    (∀ fs, accUF fs = true → nouqF fs = true → AcceptsGF o (compileF o fs) fs) ∧
+    (∀ cs ts, accUL ts = true → nouqL ts = true → cs.unique = false →
+        ∀ t ∈ ts, AcceptsG o cs (compile o cs t) t) := by
+  have hq2 : o.quirks.tupleDropsErrors = false := by rw [ho.quirks]; rfl
+  have leaf : ∀ cs t, t.acc = true → AcceptsG o cs (compile o cs t) t :=
+    fun cs t ht d hg => (accepts_iff_conforms o ho).1 cs t ht d (good_wf hg)
+  apply compile.mutual_induct
+  · intro cs _ _ _; exact leaf cs .null rfl
+  · intro cs _ _ _; exact leaf cs .bool rfl
+  · intro cs _ _ _ _; exact leaf cs .int rfl
+  · intro cs _ _ _ _; exact leaf cs .int rfl
+  · intro cs _ _ _ _; exact leaf cs .float rfl
+  · intro cs _ _ _ _; exact leaf cs .float rfl
+  · intro cs _ _ _ _; exact leaf cs .str rfl
+  · intro cs _ _ _ _; exact leaf cs .str rfl
+  · intro cs _ _ _; exact leaf cs .any rfl
+  · -- list
+    intro cs t ih hs hn hu d hg
+    rw [Ty.accU] at hs; rw [Ty.nouq] at hn
+    rw [compile, isOk_listSel, conforms]
+    apply listOk_congr_mem
+    intro xs hd x hx
+    subst hd
+    exact ih hs hn rfl x (good_list hg x hx)
+  · intro cs t _ hs; rw [Ty.accU] at hs; cases hs
+  · intro cs t _ hs; rw [Ty.accU] at hs; cases hs
+  · -- variadic tuple
+    intro cs t ih hs hn hu d hg
+    rw [Ty.accU] at hs; rw [Ty.nouq] at hn
+    rw [compile, run, isOk_mapVal_tuple, isOk_listSel, conforms]
+    apply listOk_congr_mem
+    intro xs hd x hx
+    subst hd
+    exact ih hs hn rfl x (good_list hg x hx)
+  · -- tuple
+    intro cs ts ih hs hn hu d hg
+    rw [Ty.accU] at hs; rw [Ty.nouq] at hn
+    rw [compile, hq2, isOk_tuple, conforms, compileL_length]
+    cases d <;> try rfl
+    case list xs =>
+      simp only [tupleOk, zipOk_of_AcceptsG ts (ih hs hn rfl) xs (good_list hg)]
+  · -- mapping
+    intro cs k v ihk ihv hs hn hu d hg
+    rw [Ty.accU, Bool.and_eq_true] at hs; rw [Ty.nouq, Bool.and_eq_true] at hn
+    rw [compile, isOk_mappingSel, conforms]
+    apply dictOk_congr
+    intro kvs hd
+    subst hd
+    obtain ⟨hw, hj, _⟩ := good_dict hg
+    apply all_congr_mem
+    intro kv hkv
+    have hgv : kv.2.good = true := by
+      unfold Py.good; rw [wfK_mem hw kv hkv, jsonXK_mem hj kv hkv]; rfl
+    rw [ihk hs.1 hn.1 rfl (.str kv.1) (good_str _), ihv hs.2 hn.2 rfl kv.2 hgv]
+  · -- unions of any shape
+    intro cs ts ih hs hn hu d hg
+    rw [Ty.accU] at hs; rw [Ty.nouq] at hn
+    simp only [Bool.and_eq_true, Bool.not_eq_true', Bool.not_eq_eq_eq_not, Bool.not_true] at hs
+    rw [compile, conforms]
+    refine union_accepts_at o cs ts d (fun t ht => ⟨?_, ih hs.1.1 hn hu t ht d hg⟩) ?_ ?_ ?_
+    · exact (no_crashU o ho).1 cs t (accUL_mem hs.1.1 t ht) (nouqL_mem hn t ht) hu d (good_jsonX hg)
+    · intro t ht hc
+      have := List.all_eq_true.1 hs.1.2 t ht
+      unfold sideOk at this
+      rw [hc] at this
+      cases t <;> simp [Ty.isNull] at this ⊢
+    · intro he; rw [he] at hs; simp at hs
+    · intro hall
+      have : ts.all Ty.isNull = true := List.all_eq_true.2 (fun t ht => by rw [hall t ht]; rfl)
+      rw [this] at hs; exact absurd hs.2 (by simp)
+  · intro cs vs _ _ _; exact leaf cs (.literal vs) rfl
+  · intro cs c ms _ _ _; exact leaf cs (.enum c ms) rfl
+  · intro cs n t ih hs hn hu d hg; rw [Ty.accU] at hs; rw [Ty.nouq] at hn; rw [compile, conforms]; exact ih hs hn hu d hg
+  · intro cs c t ih hs hn hu d hg
+    rw [Ty.accU] at hs; rw [Ty.nouq] at hn
+    simp only [Bool.and_eq_true, Bool.not_eq_true'] at hn
+    rw [compile, conforms]; exact ih hs hn.2 (merge_unique' hn.1 hu) d hg
+  · -- objects
+    intro cs ci fs ih hs hn _ d hg
+    rw [Ty.accU, Bool.and_eq_true] at hs; rw [Ty.nouq] at hn
+    rw [compile, conforms]
+    exact isOk_objSelG (ih hs.2 hn) (nfF_of_accUF hs.2) (nodup_of_distinctStrs hs.1) d hg
+  · intro cs _ _ _ t ht; cases ht
+  · intro cs t ts iht ihts hs hn hu t' ht'
+    rw [accUL, Bool.and_eq_true] at hs; rw [nouqL, Bool.and_eq_true] at hn
+    rcases List.mem_cons.1 ht' with rfl | hm
+    · exact iht hs.1 hn.1 hu
+    · exact ihts hs.2 hn.2 hu t' hm
+  · intro _ _; rw [compileF]; exact All2.nil
+  · intro f t fs iht ihfs hs hn
+    rw [accUF] at hs; simp only [Bool.and_eq_true, Bool.not_eq_true'] at hs
+    rw [nouqF, Bool.and_eq_true] at hn
+    rw [compileF]
+    exact All2.cons ⟨withFbod_id ho.fbod f, iht hs.1.2 hn.1 rfl⟩ (ihfs hs.2 hn.2)
+
+/-- **C01 / C03 / C13, entry point, version 2.** `deserialize(T, data)` never leaks a foreign exception and returns a
+    value iff `data` conforms to `T`, for `T` with unions at any depth. -/
+theorem C01_acceptU (o : DOpts) (ho : OptsOk o) (t : Ty) (ha : t.accU = true) (hn : t.nouq = true)
+    (d : Py) (hd : d.good = true) :
+    (deserialize o {} t d).isCrash = false ∧
+    (deserialize o {} t d).isOk = conforms o.additionalProperties false {} t d := by
+  refine ⟨C03_no_crashU o ho t ha hn d (good_jsonX hd), ?_⟩
+  unfold deserialize
+  simp only [(compile_noFailU o).1 {} t ha]
+  exact (acceptsU o ho).1 {} t ha hn rfl d hd
+
+/-! ### the hypotheses are satisfiable; the three union methods and both verdicts occur -/
+
+/-- `Dict[str, Union[int, str, List[Union[float, int, None]]]]`: a by-type table around a sequential union -/
+def exTyU : Ty := .mapping .str (.union [.int, .str, .list (.union [.float, .int, .null])])
+
+example : exTyU.accU = true ∧ exTyU.nouq = true ∧ exTyU.acc = false := by decide +kernel
+example : (Py.dict [("a", .int 1), ("b", .list [.null, .int 2]), ("c", .str "x")]).good = true := by decide +kernel
+example : conforms false false {} exTyU (.dict [("a", .int 1), ("b", .list [.null, .int 2]), ("c", .str "x")]) = true := by
+  decide +kernel
+example : conforms false false {} exTyU (.dict [("a", .int 1), ("b", .list [.null, .bool true])]) = false := by
+  decide +kernel
+example : (match compile exOpts {} exTyU with
+    | .mapping _ _ (.unionByType [(_, _), (_, _), (_, .list _ (.union [_, _, _]))]) => true
+    | _ => false) = true := by decide +kernel
+example : (deserialize exOpts {} exTyU (.dict [("a", .int 1), ("b", .list [.null, .int 2]), ("c", .str "x")])).isOk = true := by
+  decide +kernel
 
 end Api
